@@ -107,6 +107,10 @@ def _scenario(ctx, case, nprocs):
     sim.fill(php, Phi.astype(complex))
     rs.polAdv.gridStep(f, php, rs.halfStep)
     out["pol"] = sim.piece(f)
+    # the entry point that re-uses the potential splines of the previous gridStep
+    sim.fill(f, F)
+    rs.polAdv.gridStep_SplinesUnchanged(f, rs.halfStep)
+    out["pol_unchanged"] = sim.piece(f)
     # one complete Strang step from the initial condition of the run
     rs2 = sim.RankSim(ctx.comm, cfg, nprocs, layout='v_parallel', diagnostics=False)
     rs2.f.setLayout('v_parallel')
@@ -118,7 +122,8 @@ def _scenario(ctx, case, nprocs):
     return out
 
 
-NAMES4 = ["init_flux_surface", "init_v_parallel", "init_poloidal", "flux", "vpar", "vpar_keep", "pol", "step_f"]
+NAMES4 = ["init_flux_surface", "init_v_parallel", "init_poloidal", "flux", "vpar", "vpar_keep", "pol", "pol_unchanged",
+          "step_f"]
 NAMES3 = ["pargrad", "rho", "qn_phi", "step_phi"]
 
 
@@ -181,6 +186,8 @@ def op_pred(case):
            "C05:ref:vpar_keep", rel_mask=ref.last_outside)
     pol, ok = ref.poloidal(F, Phi, half)
     _close("pol", serial["pol"], pol, "serial gridStep vs per-slice reference (own v, z)", 1e-8, "C05:ref:pol", mask=ok)
+    _close("pol_unchanged", serial["pol_unchanged"], pol, "serial gridStep_SplinesUnchanged vs per-slice reference", 1e-8,
+           "C05:ref:pol_unchanged", mask=ok)
     _close("rho", serial["rho"], ref.rho(F), "serial vs reference density (own radius)", 1e-10, "C05:ref:rho")
     # ---- every process grid against the serial world -------------------------------------------
     labels = ["iota0" if cfg["iotaVal"] == 0 else "iota!=0"]
